@@ -217,7 +217,9 @@ func causes(n influxql.Node) []string {
 				set["varref-type-"+x.Type.String()] = true
 			}
 		case *influxql.DurationLiteral:
-			if x.Val%time.Microsecond != 0 {
+			if x.Val == math.MinInt64 {
+				set["duration-minint64"] = true
+			} else if x.Val%time.Microsecond != 0 {
 				set["duration-sub-microsecond"] = true
 			}
 		case *influxql.TimeLiteral:
@@ -314,32 +316,39 @@ func (r *reporter) roundTripExpr(stage string, e influxql.Expr, tc textCase) {
 	c.LogInput(tc)
 	e2, err := rdParseExpr(s, nil)
 	c.Count("roundtrips:"+stage, 1)
-	r.judgeExpr("expr-roundtrip:String", stage, e, e2, err, s, tc)
+	r.judgeExpr("printer:String", stage, e, e2, err, s, tc)
+}
+
+// explainShipped is explainString refined for a shipping path that may print
+// parentheses and fractions itself: the String() based reason is reduced to the CR/NUL
+// part when the tree without CR/NUL passes through ship unchanged.
+func explainShipped(e influxql.Expr, ship func(influxql.Expr) (influxql.Expr, error)) string {
+	why := explainString(e)
+	if ship == nil || !strings.Contains(why, "+") || !strings.Contains(why, "string-literal-with-cr-or-nul") {
+		return why
+	}
+	var b strings.Builder
+	refRender(&b, e, refOpts{parens: true, typed: true, noCR: true})
+	if t, perr := rdParseExpr(b.String(), nil); perr == nil && t != nil {
+		o := canonOpts{stripParens: true, timeAsString: true}
+		if got, serr := ship(t); serr == nil && got != nil && canon(got, o) == canon(t, o) {
+			return "string-literal-with-cr-or-nul"
+		}
+	}
+	return why
 }
 
 // judgeExpr compares the planned tree with what came back and reports a difference
-// under a signature that names its verified reason.
+// under signatures that name its verified reasons (one violation per necessary repair).
 func (r *reporter) judgeExpr(prefix, stage string, e, e2 influxql.Expr, err error, printed string, tc textCase, ship ...func(influxql.Expr) (influxql.Expr, error)) {
 	c := r.c
-	explainString := func(e influxql.Expr) string {
-		why := explainString(e)
-		if len(ship) == 0 || !strings.Contains(why, "+") || !strings.Contains(why, "string-literal-with-cr-or-nul") {
-			return why
-		}
-		// the shipping path may already print parentheses and fractions itself: does the tree
-		// without CR/NUL pass through it?
-		var b strings.Builder
-		refRender(&b, e, refOpts{parens: true, typed: true, noCR: true})
-		if t, perr := rdParseExpr(b.String(), nil); perr == nil && t != nil {
-			o := canonOpts{stripParens: true, timeAsString: true}
-			if got, serr := ship[0](t); serr == nil && got != nil && canon(got, o) == canon(t, o) {
-				return "string-literal-with-cr-or-nul"
-			}
-		}
-		return why
+	var sh func(influxql.Expr) (influxql.Expr, error)
+	if len(ship) > 0 {
+		sh = ship[0]
 	}
+	var v verdict
 	if err == nil {
-		v := classifyExpr(e, e2)
+		v = classifyExpr(e, e2)
 		if v.Equal {
 			c.Count("equal:"+stage, 1)
 			return
@@ -348,24 +357,29 @@ func (r *reporter) judgeExpr(prefix, stage string, e, e2 influxql.Expr, err erro
 			c.Count("equal-modulo-"+v.Class+":"+stage, 1)
 			return
 		}
-		if why := explainString(e); why != "" {
-			r.violation(prefix+":"+why, fmt.Sprintf("%s: tree sent as %q comes back as a different tree (...%s... vs ...%s...); it round-trips once the text %s",
-				stage, clip(printed), v.CtxA, v.CtxB, whyText(why)), tc)
-			return
-		}
-		cs := causes(e)
-		r.violation(prefix+":"+v.Class+"|cause="+strings.Join(cs, "+"),
-			fmt.Sprintf("%s: tree sent as %q comes back as a different tree: ...%s... vs ...%s...", stage, clip(printed), v.CtxA, v.CtxB), tc)
-		return
 	}
-	if why := explainString(e); why != "" {
-		r.violation(prefix+":"+why, fmt.Sprintf("%s: text %q is rejected by the receiving parser (%v); the tree round-trips once the text %s",
-			stage, clip(printed), err, whyText(why)), tc)
+	observed := fmt.Sprintf("comes back as a different tree (...%s... vs ...%s...)", v.CtxA, v.CtxB)
+	if err != nil {
+		observed = fmt.Sprintf("is rejected by the receiving parser (%v)", err)
+	}
+	if why := explainShipped(e, sh); why != "" {
+		for _, w := range strings.Split(why, "+") {
+			r.violation(prefix+":"+w, fmt.Sprintf("%s: tree sent as %q %s; it round-trips once the text %s", stage, clip(printed), observed, whyText(w)), tc)
+		}
 		return
 	}
 	cs := causes(e)
-	r.violation(prefix+":reparse-error:"+normErr(err)+"|cause="+strings.Join(cs, "+"),
-		fmt.Sprintf("%s: text %q is rejected by the receiving parser: %v", stage, clip(printed), err), tc)
+	if err != nil && strings.Contains(err.Error(), "invalid duration") && strings.Contains(strings.Join(cs, "+"), "duration-minint64") {
+		// constant folding overflowed (e.g. 307ns * 9223372036854775807.0): the literal prints as
+		// -9223372036854775808ns, whose magnitude ParseDuration cannot hold
+		r.violation(prefix+":duration-literal-minint64-unparseable", fmt.Sprintf("%s: tree sent as %q %s", stage, clip(printed), observed), tc)
+		return
+	}
+	if err != nil {
+		r.violation(prefix+":reparse-error:"+normErr(err)+"|cause="+strings.Join(cs, "+"), fmt.Sprintf("%s: tree sent as %q %s", stage, clip(printed), observed), tc)
+		return
+	}
+	r.violation(prefix+":"+v.Class+"|cause="+strings.Join(cs, "+"), fmt.Sprintf("%s: tree sent as %q %s", stage, clip(printed), observed), tc)
 }
 
 func whyText(why string) string {
@@ -402,7 +416,7 @@ func (r *reporter) codecCondition(stage string, e influxql.Expr, tc textCase) {
 	}
 	c.Count("roundtrips:"+stage, 1)
 	printed := shippedText(buf, 13) // field 13 = Condition
-	r.judgeExpr("opts-codec:Condition", stage, e, got.Condition, err, printed, tc, shipCondition)
+	r.judgeExpr("codec", stage, e, got.Condition, err, printed, tc, shipCondition)
 }
 
 type stubCatalog struct {
@@ -445,7 +459,7 @@ func (r *reporter) codecFields(stage string, fields influxql.Fields, tc textCase
 			}
 			g = got[i].Expr
 		}
-		r.judgeExpr("schema-codec:QueryFields", stage, fields[i].Expr, g, err, text, tc, shipField)
+		r.judgeExpr("codec", stage, fields[i].Expr, g, err, text, tc, shipField)
 		if err != nil {
 			return
 		}
@@ -599,7 +613,7 @@ func (r *reporter) roundTripFields(stage string, fields influxql.Fields, tc text
 			}
 			g = got[i].Expr
 		}
-		r.judgeExpr("fields-roundtrip:String", stage, fields[i].Expr, g, err, s, tc)
+		r.judgeExpr("printer:String", stage, fields[i].Expr, g, err, s, tc)
 		if err != nil {
 			return
 		}
@@ -632,7 +646,19 @@ func (r *reporter) roundTripSource(stage string, src influxql.Source, base canon
 	}
 	var got influxql.Source
 	var err error
-	if p := vf.Catch(func() { got, err = influxql.ParseSource(s) }); p != nil {
+	if p := vf.Catch(func() {
+		if len(mk) > 0 {
+			// the real codec of LogicalSubQuery sources
+			var back []influxql.Source
+			enc := query.EncodeSource([]influxql.Source{src})
+			s = enc[0]
+			if back, err = query.DecodeSource(enc); err == nil && len(back) == 1 {
+				got = back[0]
+			}
+			return
+		}
+		got, err = influxql.ParseSource(s)
+	}); p != nil {
 		r.violation("source-roundtrip:ParseSource-panic", fmt.Sprintf("%s: ParseSource(%q) panicked: %v", stage, clip(s), p), tc)
 		return
 	}
@@ -643,8 +669,10 @@ func (r *reporter) roundTripSource(stage string, src influxql.Source, base canon
 	}
 	if len(mk) > 0 {
 		if why := explainLegacy(mk[0]); why != "" {
-			r.violation("source-roundtrip:not-read-back-by-ParseSource:"+why,
-				fmt.Sprintf("%s: source printed as %q is not read back by ParseSource (err=%v); it is once the %s is removed", stage, clip(s), err, why), tc)
+			for _, w := range strings.Split(why, "+") {
+				r.violation("subquery-text:not-read-back:"+w,
+					fmt.Sprintf("%s: source printed as %q is not read back by ParseSource (err=%v); it is once the %s is removed", stage, clip(s), err, w), tc)
+			}
 			return
 		}
 	}
@@ -811,8 +839,10 @@ func (r *reporter) roundTripStmt(stage string, st influxql.Statement, base canon
 	}
 	if len(mk) > 0 {
 		if why := explainLegacy(mk[0]); why != "" {
-			r.violation("stmt-roundtrip:not-read-back-by-ParseStatement:"+why,
-				fmt.Sprintf("%s: statement printed as %q is not read back by ParseStatement (err=%v); it is once the %s is removed", stage, clip(s), err, why), tc)
+			for _, w := range strings.Split(why, "+") {
+				r.violation("subquery-text:not-read-back:"+w,
+					fmt.Sprintf("%s: statement printed as %q is not read back by ParseStatement (err=%v); it is once the %s is removed", stage, clip(s), err, w), tc)
+			}
 			return
 		}
 	}
